@@ -58,6 +58,14 @@ def one_edit_ball(s, ver):
     for i in range(len(s) + 1):
         for c in A:
             out.append(s[:i] + c + s[i:])
+    for i, ch in enumerate(s):                                        # every character in four common encodings of it
+        for e in gen.encodings(ch)[:4]:
+            out.append(s[:i] + e + s[i + 1:])
+    for ch in ":/":                                                   # ... and all separators encoded at once
+        for e in gen.encodings(ch):
+            out.append(s.replace(ch, e))
+    for d in gen.DECORATIONS:                                         # real-world decorations around the whole vector
+        out.append(d % s)
     conf = gen.confusables()
     for i, ch in enumerate(s):                                        # every Unicode look-alike of every character
         for c in conf.get(ch, ())[:10]:
